@@ -59,6 +59,8 @@ SIGS = {
             'mend': [_sl('m'), _sl('s', '*')],
             'mtx': [_sl('m', mode='text'), _sl('m')],
             'mmx': [_sl('m', mode='math'), _sl('m')],
+            'mch': [_sl('m', mode='text')],
+            'lvi': [_sl('o', '[', ']'), _sl('vl')],
         },
         'envs': {
             'ea': dict(sig=[_sl('m')], body=None), 'eo': dict(sig=[_sl('o', '[', ']')], body=None),
@@ -161,6 +163,7 @@ class _R(object):
         self.why = None
         self.math_depth = 0
         self.uses_unknown = False
+        self.verb_extra = None
 
     def emit(self, text, kind='tok', cls=None, math_before=None, math_after=None):
         m = self.math_depth > 0
@@ -434,7 +437,11 @@ def _render_item(r, it, mode, in_opt):
         name = it[1]
         slots = sig['macros'][name]
         r.emit('\\' + name)
+        r.verb_extra = None
         args, trailing = _render_args(r, slots, it[2], mode, in_opt)
+        if r.verb_extra is not None:
+            extra, r.verb_extra = r.verb_extra, None
+            return [('M', name, tuple(args), mode, extra)] + trailing
         return [('M', name, tuple(args), mode)] + trailing
     if k == 'Env':
         name = it[1]
@@ -513,6 +520,11 @@ def _render_args(r, slots, values, mode, in_opt=False):
             inner = _render_list(r, v[3], amode, 'group', o == '[')
             r.emit(c)
             args.append(('g', o, c, _finish_list(inner), amode))
+        elif kind == 'vl':
+            o, c, text = v[1], v[2], v[3]
+            r.emit(o + text + c, 'in')
+            args.append(('c', text, amode))
+            r.verb_extra = ('verbatim', text, (o, c))
         elif kind == 'v':
             o, c, text = v[1], v[2], v[3]
             r.emit(o + text + c, 'in')
@@ -602,6 +614,8 @@ class Grammar(object):
                 menus.append([(('del', sl['open'], sl['close'], None), 1)])
             elif k == 'any':
                 menus.append([(('del', o, c, None), 1) for (o, c) in (('{', '}'), ('[', ']'), ('(', ')'), ('<', '>'))])
+            elif k == 'vl':
+                menus.append([(('v', '|', '|', 'xy' if self.inert_verbatim else 'x{'), 0), (('v', '+', '+', ''), 0)])
             elif k == 'v' and self.inert_verbatim:
                 if sl['open']:
                     menus.append([(('v', sl['open'], sl['close'], 'xy'), 0)])
